@@ -91,6 +91,19 @@ def defaults_of(fi) -> Dict[str, str]:
     return out
 
 
+def kw_options_of(fi) -> Dict[str, str]:
+    """Options taken out of a keyword dictionary with a default: `<d>.pop("name", default)` / `<d>.get("name", default)`
+    where <d> is the function's **kwargs parameter (or a dict named kwargs). name -> default text (first occurrence)."""
+    kw = fi.node.args.kwarg.arg if fi.node.args.kwarg is not None else None
+    names = {kw, "kwargs"} - {None}
+    out: Dict[str, str] = {}
+    for n in ast.walk(fi.node):
+        if isinstance(n, ast.Call) and isinstance(n.func, ast.Attribute) and n.func.attr in ("pop", "get") and isinstance(n.func.value, ast.Name) \
+                and n.func.value.id in names and len(n.args) == 2 and isinstance(n.args[0], ast.Constant) and isinstance(n.args[0].value, str):
+            out.setdefault(n.args[0].value, U(n.args[1]))
+    return out
+
+
 def refusals_of(fi) -> List[dict]:
     """One entry per Raise statement of the function (nested functions excluded): the exception type and the chain of
     enclosing guards (outermost first), each as (canonical condition, decision)."""
@@ -182,13 +195,19 @@ def check(ctx, prop: str, rule: str, floor: int = 1):
                 probs.append(f"default of `{p}` is now {now[p]} (was {d})")
             elif p not in now and p in [a.arg for a in fi.node.args.posonlyargs + fi.node.args.args + fi.node.args.kwonlyargs]:
                 probs.append(f"`{p}` lost its default {d}")
+        nowk = kw_options_of(fi)
+        for o, d in ent.get("kw_options", {}).items():
+            if o not in nowk:
+                probs.append(f"keyword option '{o}' (default {d}) is no longer read from the keyword arguments")
+            elif nowk[o] != d:
+                probs.append(f"default of keyword option '{o}' is now {nowk[o]} (was {d})")
         cur = refusals_of(fi)
         for r in ent.get("refusals", []):
             msg = check_refusal(fi, r, cur)
             if msg:
                 probs.append(msg)
         n += 1
-        ctx.check(not probs, rule, f"contract:{key}", f"{len(ent.get('defaults', {}))} default(s), {len(ent.get('refusals', []))} refusal(s) as confirmed",
+        ctx.check(not probs, rule, f"contract:{key}", f"{len(ent.get('defaults', {})) + len(ent.get('kw_options', {}))} default(s), {len(ent.get('refusals', []))} refusal(s) as confirmed",
                   "; ".join(probs[:3]), fi.where)
     if n < floor:
         ctx.bad(rule, "contract:coverage", f"only {n} functions of the API census belong to {prop}", "sa/contract.json")
